@@ -23,7 +23,7 @@ META = {
     "assumptions": ["REAL mode with algebraised trigonometry", "reference sampling densities g_i = dG_i/dx_i are obtained by differentiating the reference CDFs written in this harness (sin^2 uniform cone angle, uniform azimuths, density proportional to r_d^2 - R^2 - L^2 in the path length), not the code",
                     "generalisation cuts: Lmin, Lmax, L carry exactly the facts proved by C02's init-lemma and cubic jobs (re-proved here)"],
 }
-LEDGER = 155
+LEDGER = {"quick": 155, "thorough": 155}
 
 
 def norm_run():
